@@ -78,7 +78,7 @@ class C01(CheckBase):
             insts = []
         plan = {"property": "C01", "schema": it["name"], "schema_def": it["sd"],
                 "model": {"header": pm.default_header(core.rng(seed, "C01", i, "hdr"), it["name"], rich=r.random() < 0.6), "insts": insts},
-                "render": {"spell": r.choice([None] * 6 + [{"id_pad": 4}, {"id_pad": 9, "plus_int": True}, {"plus_int": True}, {"zero_pad": True}, {"zero_pad": True, "id_pad": 3}]), "eol": r.choice(["\n"] * 7 + ["", " ", "\r\n"]), "p_ws": r.choice([0, 0.05, 0.15, 0.4]), "p_cmt_between": r.choice([0, 0, 0.1, 0.5]),
+                "render": {"spell": r.choice([None] * 6 + [{"id_pad": 4}, {"id_pad": 9, "plus_int": True}, {"id_pad": 25}, {"plus_int": True}, {"zero_pad": True}, {"zero_pad": True, "id_pad": 3}]), "eol": r.choice(["\n"] * 7 + ["", " ", "\r\n"]), "p_ws": r.choice([0, 0.05, 0.15, 0.4]), "p_cmt_between": r.choice([0, 0, 0.1, 0.5]),
                            "p_cmt_in": r.choice([0, 0, 0, 0, 0, 0, 0.03, 0.2]), "sections": r.choice(["hif", "i", "i", "hi"]),
                            "seed": core.derive(seed, "C01", i, "render")},
                 "delivery": [pw.gen_delivery(r), pw.gen_delivery(r), pw.gen_delivery(r)],
